@@ -9,11 +9,13 @@ import (
 	"os"
 	"os/exec"
 	"path/filepath"
+	"reflect"
 	"runtime"
 	"sort"
 	"strings"
 	"sync"
 	"time"
+	"unsafe"
 
 	"github.com/cockroachdb/apd/v3"
 
@@ -74,6 +76,57 @@ func globalsDump() string {
 		sb.WriteString(k + "=" + snap.Dump(g[k]) + ";")
 	}
 	return sb.String()
+}
+
+// shallowGlobals saves the memory of every package-level variable (not what it points to) so that every
+// execution can start from the initial package state (lazily filled caches are then "first use" in every
+// schedule) and any write to a package-level variable is seen by a cheap byte comparison.
+type shallowGlobals struct {
+	names []string
+	ptrs  []reflect.Value // pointers to the variables
+	saved []reflect.Value // copies of their initial values
+}
+
+func saveGlobals() *shallowGlobals {
+	g := apd.VerifGlobals()
+	sg := &shallowGlobals{}
+	for k := range g {
+		sg.names = append(sg.names, k)
+	}
+	sort.Strings(sg.names)
+	for _, k := range sg.names {
+		p := reflect.ValueOf(g[k])
+		c := reflect.New(p.Elem().Type()).Elem()
+		c.Set(p.Elem())
+		sg.ptrs = append(sg.ptrs, p)
+		sg.saved = append(sg.saved, c)
+	}
+	return sg
+}
+
+func (sg *shallowGlobals) restore() {
+	for i, p := range sg.ptrs {
+		p.Elem().Set(sg.saved[i])
+	}
+}
+
+// changed returns the name of a package-level variable whose own memory differs from the saved copy.
+func (sg *shallowGlobals) changed() string {
+	for i, p := range sg.ptrs {
+		if p.Elem().Kind() == reflect.Map || p.Elem().Kind() == reflect.Func {
+			if p.Elem().Pointer() != sg.saved[i].Pointer() {
+				return sg.names[i]
+			}
+			continue
+		}
+		n := p.Elem().Type().Size()
+		a := unsafe.Slice((*byte)(unsafe.Pointer(p.Pointer())), n)
+		b := unsafe.Slice((*byte)(unsafe.Pointer(sg.saved[i].Addr().Pointer())), n)
+		if !bytes.Equal(a, b) {
+			return sg.names[i]
+		}
+	}
+	return ""
 }
 
 func mustDec(s string) *apd.Decimal {
@@ -224,16 +277,19 @@ type c18Runner struct {
 	nexec  int
 	// forceGlobals: dump the package-level variables after this execution
 	forceGlobals bool
+	sg           *shallowGlobals
 }
 
 func newRunner(sc c18Scenario, maxOcc int) *c18Runner {
-	r := &c18Runner{sc: sc, sh: newShared(sc.P), s: sched.New()}
+	sg := saveGlobals()
+	r := &c18Runner{sc: sc, sh: newShared(sc.P), s: sched.New(), sg: sg}
 	r.s.MaxOcc = maxOcc
 	c18Sched = r.s
 	apd.VerifYield = r.s.Yield
 	// solo baselines (scheduler inactive: Yield returns immediately)
 	for _, th := range sc.Threads {
 		var o []string
+		sg.restore() // every solo thread starts from the initial package state, like every schedule
 		for _, c := range th {
 			o = append(o, c.f(r.sh))
 		}
@@ -276,6 +332,7 @@ func firstDiff(a, b string) string {
 func (r *c18Runner) bodies() []func() {
 	r.out = make([][]string, len(r.sc.Threads))
 	r.midBad = ""
+	r.sg.restore()
 	var bs []func()
 	for ti, th := range r.sc.Threads {
 		ti, th := ti, th
@@ -310,7 +367,10 @@ func (r *c18Runner) verdict(err error) string {
 	if d := r.sh.dumpLocal(); d != r.sh.initLocal {
 		return "shared state (operands or Context) differs after the execution: " + firstDiff(r.sh.initLocal, d)
 	}
-	// the package-level variables (lookup tables of hundreds of big integers) are dumped after every 256th
+	if name := r.sg.changed(); name != "" {
+		return "package-level variable " + name + " was written during the execution (its memory differs from the initial state)"
+	}
+	// what the package-level variables point to (lookup tables of hundreds of big integers) is dumped after every 256th
 	// execution and at the end of each exploration: a modification persists across executions, so it is
 	// detected at the next dump (the report then names the last schedule, not necessarily the culprit)
 	r.nexec++
@@ -449,14 +509,8 @@ func C18FreeRun(reps int) int {
 	bad := 0
 	for _, sc := range c18Scenarios() {
 		sh := newShared(sc.P)
-		var solo [][]string
-		for _, th := range sc.Threads {
-			var o []string
-			for _, c := range th {
-				o = append(o, c.f(sh))
-			}
-			solo = append(solo, o)
-		}
+		// the concurrent runs come first: lazily initialised package state is then first touched concurrently
+		var outs [][][]string
 		for rep := 0; rep < reps; rep++ {
 			var wg sync.WaitGroup
 			start := make(chan struct{})
@@ -474,13 +528,26 @@ func C18FreeRun(reps int) int {
 			}
 			close(start)
 			wg.Wait()
+			if rep == 0 || fmt.Sprint(out) != fmt.Sprint(outs[len(outs)-1]) {
+				outs = append(outs, out)
+			}
+		}
+		var solo [][]string
+		for _, th := range sc.Threads {
+			var o []string
+			for _, c := range th {
+				o = append(o, c.f(sh))
+			}
+			solo = append(solo, o)
+		}
+		for _, out := range outs {
 			if fmt.Sprint(out) != fmt.Sprint(solo) {
 				fmt.Printf("FREE-RUN-MISMATCH scenario=%q got=%v want=%v\n", sc.Name, out, solo)
 				bad++
 				break
 			}
 		}
-		if sh.dump() != sh.init {
+		if sh.dumpLocal() != sh.initLocal {
 			fmt.Printf("FREE-RUN-SHARED-STATE-CHANGED scenario=%q\n", sc.Name)
 			bad++
 		}
